@@ -323,7 +323,7 @@ SETTING_TABLE = {'ecdsaSigHashes': 'ECDSA_SIGNATURE_HASHES', 'rsaSigHashes': 'AL
                  'keyExchangeNames': 'KEY_EXCHANGE_NAMES', 'certificateTypes': 'CERTIFICATE_TYPES'}
 
 
-def single_value_pairs(versions):
+def single_value_pairs(versions, full=True):
     """One side keeps exactly ONE admissible value of one list-valued setting (the other side and everything else stay
     default), per credential type whose handshake the setting takes part in, per protocol version, with the
     restriction on the client or on the server; for the signature settings also with client authentication."""
@@ -362,10 +362,20 @@ def single_value_pairs(versions):
                         out[-1]['reqcert'] = True
                         out[-1]['labels'] = ([out[-1]['labels'][0][0] + ' (reqCert, client without certificate)'], [])
             for setting, screds in GENERAL_SETTINGS.items():
-                for value in getattr(hs, SETTING_TABLE[setting]):
-                    if setting == 'keyExchangeNames' and value in ('srp_sha', 'srp_sha_rsa', 'ecdh_anon', 'dh_anon'):
-                        continue        # not certificate handshakes
-                    for cred in screds:
+                values = [v for v in getattr(hs, SETTING_TABLE[setting])
+                          if not (setting == 'keyExchangeNames' and v in ('srp_sha', 'srp_sha_rsa', 'ecdh_anon', 'dh_anon'))]
+                for ci, cred in enumerate(screds):
+                    if full:
+                        chosen = values
+                    else:
+                        # quick tier: per setting x credential x version the first, the last and one rotating value,
+                        # the restricted side alternating; the thorough tier runs every value on either side
+                        vi = versions.index(ver)
+                        chosen = []
+                        for k, v in enumerate([values[0], values[-1], values[(ci + 2 * vi + 1) % len(values)]]):
+                            if v not in chosen and ((k + ci + vi) % 2 == 0) == (side == 'client'):
+                                chosen.append(v)
+                    for value in chosen:
                         add('general', cred, None, side, setting, value, ver)
     return out
 
@@ -536,7 +546,7 @@ def run_pairs(ctx, found, model_ok):
     n = 48 if quick else 1000
     seeds = [ctx.rng.randrange(2 ** 31) for _ in range(n)]
     sweep_versions = [(3, 1), (3, 3), (3, 4)] if quick else [(3, 1), (3, 2), (3, 3), (3, 4)]
-    pairs = directed_pairs() + cross_pairs() + single_value_pairs(sweep_versions) + [gen_pair(sd) for sd in seeds]
+    pairs = directed_pairs() + cross_pairs() + single_value_pairs(sweep_versions, full=not quick) + [gen_pair(sd) for sd in seeds]
     with multiprocessing.Pool(min(16, vlib.NPROC)) as pool:
         outs = pool.map(run_pair, pairs, chunksize=4)
     ctx.log('pairs: %d live pairs run' % len(pairs))
